@@ -737,6 +737,8 @@ class Executor:
                         break
                 return
             seq = self.as_sequence(itv, node)
+            if isinstance(seq, VList):
+                st.env[f"__seq{k}"] = seq  # ghost name: the sequence loop #k iterates over
         if spec is None:
             raise Unsupported(f"loop #{k} ({head}) has no invariant in the contract")
         if spec.head != head:
@@ -1314,8 +1316,34 @@ class Executor:
         if not gen.ifs and isinstance(node.elt, ast.Name) and isinstance(gen.target, ast.Name) and node.elt.id == gen.target.id:
             return VList(seq.t, seq.et)
         if gen.ifs:
-            raise Unsupported("filtering comprehension (no contract support yet)")
+            if (
+                isinstance(src, VSet)
+                and len(gen.ifs) == 1
+                and isinstance(node.elt, ast.Name)
+                and isinstance(gen.target, ast.Name)
+                and node.elt.id == gen.target.id
+            ):
+                return self.filter_set_comprehension(node, gen, src)
+            raise Unsupported("filtering comprehension of this shape")
         return self.map_comprehension(node, gen, seq)
+
+    def filter_set_comprehension(self, node, gen, src):
+        """[x for x in S if c(x)]  ->  an enumeration of the set { x in S | c(x) }; c must be a
+        pure condition (no calls through contracts): it is evaluated once for a generic x"""
+        st = self.st
+        x = z3.Const(f"_flt_x_{self.rel(node)}", src.et.sort())
+        saved_env = dict(st.env)
+        pc_before = len(st.pc)
+        consts_before = len(st.fresh_consts)
+        st.env[gen.target.id] = src.et.wrap(x)
+        cv = self.truth(self.eval(gen.ifs[0]))
+        if len(st.pc) != pc_before or len(st.fresh_consts) != consts_before:
+            raise Unsupported("filter condition is not a pure expression")
+        st.env = saved_env
+        fs = st.fresh_const("filtered", src.t.sort())
+        st.assume(L.Forall([x], [z3.IsMember(x, fs)], z3.IsMember(x, fs) == z3.And(z3.IsMember(x, src.t), cv), "filter.def"))
+        st.assume(L.Forall([x], [z3.IsMember(x, src.t)], z3.IsMember(x, fs) == z3.And(z3.IsMember(x, src.t), cv), "filter.def2"))
+        return VSet(fs, src.et).enum()
 
     def map_comprehension(self, node, gen, seq):
         """[e(x) for x in xs]  ->  fresh list r with len(r) = len(xs) and, for every valid
@@ -1353,6 +1381,11 @@ class Executor:
             body = z3.substitute(body, sub)
         st.assume(LT.len(r) == seq.len())
         st.assume(L.Forall([i], [LT.at(r, i)], z3.Implies(z3.And(0 <= i, i < seq.len()), body), "comprehension"))
+        src_i = seq.at(i)
+        if hasattr(src_i, "t") and z3.is_app(src_i.t) and src_i.t.num_args() == 2:
+            # the same fact, triggered by the source element (so that a witness found in the
+            # source yields its image)
+            st.assume(L.Forall([i], [src_i.t], z3.Implies(z3.And(0 <= i, i < seq.len()), body), "comprehension.by.source"))
         return VList(r, et)
 
     # ---- calls ---------------------------------------------------------------------------
